@@ -1,6 +1,6 @@
 (* C17: case type, model observation, specification predicate, verdict. *)
 From LC Require Import Lib.Bytes Lib.Fields Lib.PathM Gen.Consts Model.StageLine Model.StageDoc
-  Model.StageWild Model.StageWildDoc Model.Recipe Model.RecipeDoc Cases.Verdict.
+  Model.StageWild Model.StageWildDoc Model.Recipe Model.RecipeDoc Model.Compress Cases.Verdict.
 Open Scope N_scope.
 
 Module C17.
@@ -21,15 +21,17 @@ Inductive input :=
                                                  (* GenerateFileList + ReadUserFileList + Finalize on a build root *)
   | IProc (t : tree) (pre : list bytes) (lines : list bytes)
                                                  (* stagemaker -list stage -files -addfiles F *)
-  | IRecipe (env : renv) (cmd : rcmd) (items : option (list ritem)) (lines : list bytes).
+  | IRecipe (env : renv) (cmd : rcmd) (items : option (list ritem)) (lines : list bytes)
                                                  (* stagemaker -list system -recipe F *)
+  | IGen (sw out : bytes) (recipe : list bytes). (* stagemaker -generate [-compress sw] [-o out] [-recipe: compress lines] *)
 
 Inductive obs :=
   | OLine (r : line_res) (located : bool)        (* located: every message names file and line *)
   | OMode (r : option (N * N)) (referee : list (N * option N))   (* chmod(1) s on files of mode m *)
   | OList (r : list_res) (located : bool)
   | OProc (class : N) (located : bool) (names : list bytes)      (* class: 0 exit 0, 1 exit 1, 2 crash *)
-  | ORecipe (class : N) (located : bool) (atoms : list bytes).
+  | ORecipe (class : N) (located : bool) (atoms : list bytes)
+  | OGen (class : N) (method : N).               (* method read from the magic bytes: 0 tar, 1 gzip, 2 bzip2, 3 xz *)
 
 Record case := MkCase { c_in : input; c_obs : obs }.
 
@@ -42,6 +44,7 @@ Definition obs_beq (a b : obs) : bool :=
   | OList r1 l1, OList r2 l2 => list_res_beq r1 r2 && Bool.eqb l1 l2
   | OProc c1 l1 n1, OProc c2 l2 n2 => (c1 =? c2) && Bool.eqb l1 l2 && list_beq beq n1 n2
   | ORecipe c1 l1 n1, ORecipe c2 l2 n2 => (c1 =? c2) && Bool.eqb l1 l2 && list_beq beq n1 n2
+  | OGen c1 m1, OGen c2 m2 => (c1 =? c2) && (m1 =? m2)
   | _, _ => false
   end.
 
@@ -77,6 +80,7 @@ Definition model (c : case) : obs :=
   | IList t init _ lines => OList (fst (run_list t [] init lines)) true
   | IProc t pre lines => proc_obs (fst (run_list t (pre_list pre) [] lines))
   | IRecipe env cmd _ lines => recipe_obs (list_system env cmd lines)
+  | IGen sw out recipe => match gen_method sw out recipe with Some m => OGen 0 m | None => OGen 1 0 end
   end.
 
 (* chmod(1) is asked only about strings without NUL that are octal or have no digit at all
@@ -122,6 +126,9 @@ Definition wf (c : case) : bool :=
        | Some its => forallb ritem_ok its && list_beq beq (map ritem_render its) lines
        | None => true
        end
+  | IGen sw out recipe, OGen _ _ =>
+    let plain (s : bytes) := forallb (fun c => (33 <=? bn c) && (bn c <? 127)) s in
+    plain sw && plain out && forallb (fun v => plain v && match v with [] => false | _ => true end) recipe
   | _, _ => false
   end.
 
@@ -149,6 +156,8 @@ Definition spec (c : case) (o : obs) : bool :=
     | None => false
     end
   | IRecipe _ _ None _, ORecipe class _ _ => negb (class =? 2)
+  | IGen sw out recipe, OGen class m =>
+    negb (class =? 2) && gen_spec sw out recipe (if class =? 0 then Some m else None)
   | _, _ => false
   end.
 
